@@ -90,6 +90,62 @@ CHECKS = {
         "DESIGN.md §2 C05",
         "E1 detsched",
     ),
+    "C06": (
+        "fault_enumeration",
+        'fault-position enumeration: for each generated program the fault-free execution is run, then one execution per backend call with an injected error (class x request-lost/response-lost), plus a stage that makes failures coincide with callers inside create_checkpoint (backend latency, sleeping bodies, overflow-sized payloads) under walk/PCT schedules with line-level preemption; fail-stop oracle on the failing invocation',
+        'Every position of the failing call in the first invocations of each generated program is tried; hangs are observable scheduler states.',
+        'Trusted base: the service model vf/simbackend.py (wire-level; choices listed in DESIGN.md §6), the deterministic scheduler vf/detsched.py (yield points = operations of threading/queue/time primitives and backend calls, optionally source lines of selected SDK files) and the workflow interpreter vf/wfrun.py. Nothing is proved: the property held on every generated case.',
+        "DESIGN.md §2 C06",
+        "E1-E4 workflow",
+    ),
+    "C07": (
+        "exploration",
+        "schedule/history search: generated programs mixing all suspending operations at top level and in nested map/parallel x schedules x timer lag/latency/external delivery orders; park-soundness oracle at each PENDING return (backend's armed timers/awaited events), bounded-liveness oracle (invocation bound, deadlock and virtual-time cap as observable states)",
+        "Soundness is judged against the service model's table at the instant of each PENDING return; liveness in the bounded form stated in DESIGN.md §1.",
+        'Trusted base: the service model vf/simbackend.py (wire-level; choices listed in DESIGN.md §6), the deterministic scheduler vf/detsched.py (yield points = operations of threading/queue/time primitives and backend calls, optionally source lines of selected SDK files) and the workflow interpreter vf/wfrun.py. Nothing is proved: the property held on every generated case.',
+        "DESIGN.md §2 C07",
+        "E1-E4 workflow",
+    ),
+    "C09": (
+        "exploration",
+        'PBT over completion configurations x branch behaviours x schedules against per-branch ground truth and an independent reference of the completion policy, plus a race stage (simultaneous completions, line-level preemption in executor/models) and an exhaustive pure cross-check of ExecutionCounters against the reference',
+        'Result faithfulness, not-too-early, not-too-late (blocked and suspended branches), concurrency limit, reason consistency and replay equality are all judged; the pure half is exhaustive for n<=4.',
+        'Trusted base: the service model vf/simbackend.py (wire-level; choices listed in DESIGN.md §6), the deterministic scheduler vf/detsched.py (yield points = operations of threading/queue/time primitives and backend calls, optionally source lines of selected SDK files) and the workflow interpreter vf/wfrun.py. Nothing is proved: the property held on every generated case.',
+        "DESIGN.md §2 C09",
+        "E1-E4 workflow",
+    ),
+    "C10": (
+        "exploration",
+        "schedule search with an orphan monitor: generated early-completing map/parallel with survivor scripts; create_checkpoint is wrapped from the test side to time-stamp hand-overs, the service model records arrivals; a descendant's update handed over after the ancestor's completion and arriving after it is a violation",
+        'The instant of parent completion relative to what each survivor is doing is varied by schedule, backend latency and line-level preemption.',
+        'Trusted base: the service model vf/simbackend.py (wire-level; choices listed in DESIGN.md §6), the deterministic scheduler vf/detsched.py (yield points = operations of threading/queue/time primitives and backend calls, optionally source lines of selected SDK files) and the workflow interpreter vf/wfrun.py. Nothing is proved: the property held on every generated case.',
+        "DESIGN.md §2 C10",
+        "E1-E4 workflow",
+    ),
+    "C16": (
+        "exploration",
+        'boundary-value PBT: results padded to exact serialized lengths around the (test-side patched, sometimes true) limits, replays forced by waits/crashes; oracle on payload sizes, ReplayChildren flag, replay equality / no re-execution / no new records, and handler outputs around the response limit measured in bytes',
+        'Both limits are explored at +-2 around the boundary.',
+        'Trusted base: the service model vf/simbackend.py (wire-level; choices listed in DESIGN.md §6), the deterministic scheduler vf/detsched.py (yield points = operations of threading/queue/time primitives and backend calls, optionally source lines of selected SDK files) and the workflow interpreter vf/wfrun.py. Nothing is proved: the property held on every generated case.',
+        "DESIGN.md §2 C16",
+        "E1-E4 workflow",
+    ),
+    "C17": (
+        "fault_enumeration",
+        'PBT + crash enumeration: sequential programs with log calls between/inside units, a capturing logger, suspension or crash after every unit (every prefix of completed work) and every paging split of the history; log-judge oracle in both directions',
+        "Each invocation's emitted records are compared with the set the program-order rule predicts from the history handed to that invocation.",
+        'Trusted base: the service model vf/simbackend.py (wire-level; choices listed in DESIGN.md §6), the deterministic scheduler vf/detsched.py (yield points = operations of threading/queue/time primitives and backend calls, optionally source lines of selected SDK files) and the workflow interpreter vf/wfrun.py. Nothing is proved: the property held on every generated case.',
+        "DESIGN.md §2 C17",
+        "E1-E4 workflow",
+    ),
+    "C18": (
+        "fault_enumeration",
+        'PBT against an independent classifier table: handler behaviours (return values, every exception class at every nesting level, suspensions) x injected faults at any backend call (incl. unparsable responses) x malformed events; checks well-formedness, classification, stopped checkpoint thread',
+        "The table is written from the documented contract, not from the wrapper's except-chain.",
+        'Trusted base: the service model vf/simbackend.py (wire-level; choices listed in DESIGN.md §6), the deterministic scheduler vf/detsched.py (yield points = operations of threading/queue/time primitives and backend calls, optionally source lines of selected SDK files) and the workflow interpreter vf/wfrun.py. Nothing is proved: the property held on every generated case.',
+        "DESIGN.md §2 C18",
+        "E1-E4 workflow",
+    ),
     "C15": (
         "exploration",
         "property-based testing (Hypothesis): round-trip oracle with type-aware equality over a recursive grammar of the serializer's domain, plus a reject-set generator; thorough adds a coverage-guided atheris/libFuzzer stage over the same property",
